@@ -41,13 +41,23 @@ def run_c01(ctx):
             run_olh(ctx, 'shell', twin_args(ctx, ['-histories', '80', '-blocks', '14'], ['-histories', '800', '-blocks', '24']))]
 
 
+def gassweep(ctx, monitors):
+    # failure points made by a finite block gas limit, enumerated exactly (harness/apph/gassweep.go)
+    return run_olh(ctx, 'gassweep', twin_args(ctx, ['-cases', '80', '-targets', '6'], ['-cases', '2500', '-targets', '8']) + ['-monitors', monitors])
+
+
 def run_c02(ctx):
+    return [gassweep(ctx, 'succeeded-under-gas-limit-with-other-effect')] + run_ledger(ctx)
+
+
+def run_ledger(ctx):
     return [run_olh(ctx, 'ledger', twin_args(ctx, ['-histories', '300', '-blocks', '14', '-maxtxs', '8'], ['-histories', '4000', '-blocks', '24', '-maxtxs', '10'])),
             run_olh(ctx, 'ledger-direct', twin_args(ctx, ['-histories', '200', '-blocks', '14', '-maxtxs', '8'], ['-histories', '3000', '-blocks', '24', '-maxtxs', '10']))]
 
 
 def run_c18(ctx):
-    return [run_olh(ctx, 'nocrash', twin_args(ctx, ['-seeds', '12', '-fuzz', '150', '-parallel', '12'], ['-seeds', '400', '-fuzz', '600', '-parallel', '14']))]
+    return [gassweep(ctx, 'gas-window-closes-application,app-closed-by-panic'),
+            run_olh(ctx, 'nocrash', twin_args(ctx, ['-seeds', '12', '-fuzz', '150', '-parallel', '12'], ['-seeds', '400', '-fuzz', '600', '-parallel', '14']))]
 
 
 def run_c05(ctx):
@@ -56,7 +66,8 @@ def run_c05(ctx):
 
 
 def run_c06(ctx):
-    return [run_olh(ctx, 'dropfailed', twin_args(ctx, ['-histories', '150', '-blocks', '16', '-maxtxs', '8'], ['-histories', '2000', '-blocks', '30', '-maxtxs', '10'])),
+    return [gassweep(ctx, 'failed-under-gas-limit-left-writes,succeeded-under-gas-limit-with-other-effect'),
+            run_olh(ctx, 'dropfailed', twin_args(ctx, ['-histories', '150', '-blocks', '16', '-maxtxs', '8'], ['-histories', '2000', '-blocks', '30', '-maxtxs', '10'])),
             run_olh(ctx, 'shell', twin_args(ctx, ['-histories', '80', '-blocks', '14'], ['-histories', '800', '-blocks', '24']))]
 
 
@@ -175,7 +186,7 @@ PROPS = {
     'C03': dict(
         lean_modules=['OLP.Props.C03', 'OLP.Props.C03Facts'], namespaces=['OLP.Props.C03'],
         required_theorems=['transfer_debits_only_src', 'negative_coin_debits_receiver', 'send_debits_only_from', 'feeStep_debits_only_signer', 'block_debits_only_authorised', 'signers_as_classified'],
-        run=run_c02, replay=replay_olh('ledger'), level='proof',
+        run=run_ledger, replay=replay_olh('ledger'), level='proof',
         assumptions=['holdings per owner are decoded by the harness (balances, effective / withdrawable / maturing stake, active and pending delegation, delegation reward claims); authorised = signed a transaction of the block, stake account of a signing validator, or validator declared guilty in the block'],
         model_limits='authorisation of the 31 handlers rests on the extracted Signers() table (decide) plus the stranger stream of the ledger engine (every address-typed payload field replaced by a third party while the attacker signs), not on per-handler proofs'),
     'C18': dict(
